@@ -13,6 +13,9 @@ theorem current_firstFlow_ok : firstFlowDecides = some false := by decide
 /-- the sub-process completion monitor listens on the inner tracer (D10 repaired) -/
 theorem current_subReturns_ok : subNeverReturns = some false := by decide
 
+/-- every token that reaches an intermediate throw event passes it (D38 repaired) -/
+theorem current_throwPasses_ok : throwFuse = some false := by decide
+
 /-- facts the extractor must be able to read at all -/
 theorem current_facts_known : inclCohort.isSome = true ∧ subStartSticky.isSome = true := by decide
 
@@ -21,6 +24,7 @@ def faithful : Bpmn.Model.Engine.Cfg :=
   { firstFlowDecides := firstFlowDecides.getD true
     subNeverReturns := subNeverReturns.getD true
     inclCohort := inclCohort.getD true
-    subStartSticky := subStartSticky.getD true }
+    subStartSticky := subStartSticky.getD true
+    throwFuse := throwFuse.getD true }
 
 end Bpmn.Props.EngineCurrent
